@@ -20,7 +20,7 @@ vars == <<i, dev>>
 F(idx, name, detail) == [rec |-> idx, pred |-> name, detail |-> ToString(detail)]
 Sel(q, P(_)) == SelectSeq(q, P)
 SeqToSet(q) == {q[j] : j \in DOMAIN q}
-IsWrite(op) == op \in {"set", "setifabsent", "invalidate", "compute", "evict", "invalidateAll"}
+IsWrite(op) == op \in {"set", "setifabsent", "invalidate", "compute", "computeinv", "evict", "invalidateAll"}
 
 Check(r, idx) ==
     LET ev == SeqToSet(r.events)
@@ -66,7 +66,7 @@ Check(r, idx) ==
         \* (an InvalidateAll counts when it really removed the key: an Invalidation event of the key inside the call)
         stale == {x \in finRuns(1) : \E w \in wcalls : /\ w.k = 1 /\ w.seq > enterSeq(x)
                                                        /\ \E y \in wrets : /\ y.g = w.g /\ y.seq < installSeq(x)
-                                                                             /\ \/ w.op \in {"set", "compute", "invalidate"}
+                                                                             /\ \/ w.op \in {"set", "compute", "invalidate", "computeinv"}
                                                                                 \/ /\ w.op = "invalidateAll"
                                                                                    /\ \E a \in aevs : a.k = 1 /\ a.err = "Invalidation" /\ a.seq > w.seq /\ a.seq < y.seq}
         \* the last explicit set/compute that returned after every load was installed must be what the cache holds
